@@ -666,6 +666,23 @@ func runGeom(g geom.Geom) string {
 				indep = 0
 			}
 			fmt.Fprintf(&res, " indep %d", indep)
+			// the call after the last vertex (unspecified by the property; compared with the model, C04_points_exhausted)
+			var extra geom.Point
+			reached := false
+			if pan := vproto.Safe(func() {
+				it := g.Points()
+				for i := 0; i < n; i++ {
+					it()
+				}
+				reached = true
+				extra = it()
+			}); pan != "" {
+				if reached {
+					res.WriteString(" beyond panic")
+				}
+			} else {
+				res.WriteString(" beyond ok " + vproto.F2H(extra.X) + " " + vproto.F2H(extra.Y))
+			}
 		}
 	}
 	var b *geom.Bounds
